@@ -260,8 +260,15 @@ def r01_1(rep, prog):
                             for s2, pol in cg.edges(b):
                                 if pol is True:
                                     act = T._block_action(cg, s2, 0)
-                            ok = act == ('return', -2)
-        (rep.holds if ok else rep.violated)('R01.1', '%s:multistream decode returns OPUS_BUFFER_TOO_SMALL when the validated duration exceeds frame_size' % prog.config, g.where(), None if ok else 'check not found',
+                                    # `ret > frame_size && !decode_fec`: the refusal may be restricted to normal decoding - with
+                                    # decode_fec each stream decoder enforces its own capacity (R01.1 on opus_decode_native, C10 R10.9)
+                                    c2 = cg.cond(s2)
+                                    if act != ('return', -2) and c2 is not None and any(sx.kind(y) == 'param' and y[2] == 'decode_fec' for y in sx.walk(c2)):
+                                        for s3, pol3 in cg.edges(s2):
+                                            if T._block_action(cg, s3, 0) == ('return', -2):
+                                                act = ('return', -2)
+                            ok = ok or act == ('return', -2)
+        (rep.holds if ok else rep.violated)('R01.1', '%s:multistream decode returns OPUS_BUFFER_TOO_SMALL when the validated duration exceeds frame_size (in normal decoding)' % prog.config, g.where(), None if ok else 'check not found',
                                             **({} if ok else {'key': 'ms-capacity'}))
 
 
